@@ -13,7 +13,7 @@ use uom::si::length::meter;
 pub fn def() -> PropDef {
     PropDef {
         id: "C16",
-        rule: "inputs: helices with centre within +-3 m, radius 0.03-5 m, any phase, pitch 0 / +-subnormal / +-1e-17..1e2 m (one class per decade, equal weight), and points (a) anywhere in the drift volume, (b) within 1 cm of the helix with the z offset scaled by min(|h|,1) so that tiny pitches still give interior parameters; direct call of the closest-point routine through the hook with the callers' tolerance and iteration limit; plus the hook-free variants: t_inner / t_outer of fitted tracks against the cluster's innermost / outermost point, and the per-track parameters of a primary vertex against the vertex position; oracle: t is not NaN and in [-pi, pi]; if strictly inside, dist(point, at(t)) <= min over s in [-pi, pi] of dist(point, at(s)) + 1e-9 m, the minimum found by a 20001-point grid with golden-section refinement around the best cells and both end points (at = the library's Track::at, so only the choice of t is judged); non-trivial = t strictly inside (-pi, pi); distinct by (pitch decade, case hash)",
+        rule: "inputs: helices with centre within +-3 m, radius 0.03-5 m, any phase, pitch 0 / +-subnormal / +-1e-17..1e2 m (one class per decade, equal weight), and points (a) anywhere in the drift volume, (b) within 1 cm of the helix with the z offset scaled by min(|h|,1) so that tiny pitches still give interior parameters; direct call of the closest-point routine through the hook with the callers' tolerance and iteration limit; plus the hook-free variants: t_inner / t_outer of fitted tracks against the cluster's innermost / outermost point, and the per-track parameters of a primary vertex against the vertex position (fitted tracks; hook-built sets of 2-6 tracks through or within 2 cm of a common point 0-30 cm off the beam axis, each circle also passing within 7 cm of the axis; the track sets of C14); oracle: t is not NaN and in [-pi, pi]; if strictly inside, dist(point, at(t)) <= min over s in [-pi, pi] of dist(point, at(s)) + 1e-9 m, the minimum found by a 20001-point grid with golden-section refinement around the best cells and both end points (at = the library's Track::at, so only the choice of t is judged); non-trivial = t strictly inside (-pi, pi); distinct by (pitch decade, case hash)",
         assumptions: &["closest_t is reached through reconstruction::verif_hooks::closest_t (same tolerance f64::EPSILON and 20 iterations as every caller)"],
         run,
         replay,
@@ -227,6 +227,110 @@ fn fitted(c: &PointsCase, ev: &mut Ev) -> Outcome {
     Ok(())
 }
 
+
+// ------------------------------------------------------------------ vertex parameters of hook-built track sets
+
+/// One track through (or next to) the common point: the circle passes through
+/// the common point and through a second point `q` near the beam axis, so its
+/// distance of closest approach to the axis is at most |q|.
+#[derive(Clone, Debug, Serialize, Deserialize)]
+pub struct CrossTrack {
+    pub q: [Fx; 2],
+    pub radius_extra: Fx,
+    pub side: bool,
+    pub pitch: Fx,
+    pub tv: Fx,
+    pub span: [Fx; 2],
+    pub jitter: [Fx; 3],
+}
+#[derive(Clone, Debug, Serialize, Deserialize)]
+pub struct CrossingCase {
+    /// common point: (distance from the axis, azimuth, z)
+    pub v: [Fx; 3],
+    pub tracks: Vec<CrossTrack>,
+}
+
+impl CrossingCase {
+    pub fn build(&self) -> Vec<Track> {
+        let (vx, vy, vz) = (self.v[0].0 * self.v[1].0.cos(), self.v[0].0 * self.v[1].0.sin(), self.v[2].0);
+        self.tracks
+            .iter()
+            .map(|t| {
+                let (qx, qy) = (t.q[0].0, t.q[1].0);
+                let d = (vx - qx).hypot(vy - qy);
+                let r = d / 2.0 + t.radius_extra.0;
+                let (mx, my) = ((vx + qx) / 2.0, (vy + qy) / 2.0);
+                let (nx, ny) = if d > 1e-9 { (-(vy - qy) / d, (vx - qx) / d) } else { (1.0, 0.0) };
+                let perp = (r * r - d * d / 4.0).max(0.0).sqrt() * if t.side { 1.0 } else { -1.0 };
+                let (cx, cy) = (mx + perp * nx + t.jitter[0].0, my + perp * ny + t.jitter[1].0);
+                let psi = (vy - cy).atan2(vx - cx);
+                let phi0 = psi - t.tv.0;
+                let z0 = vz + t.jitter[2].0 - t.pitch.0 / (2.0 * PI) * t.tv.0;
+                let a = (t.tv.0 + t.span[0].0).clamp(-PI, PI);
+                let b = (t.tv.0 + t.span[1].0).clamp(-PI, PI);
+                track_of(&[cx, cy, z0, r, phi0, t.pitch.0], a, b)
+            })
+            .collect()
+    }
+}
+
+fn crossing_case() -> impl Strategy<Value = CrossingCase> {
+    let jit = || prop_oneof![2 => Just(0.0f64), 2 => -0.002f64..=0.002, 1 => -0.02f64..=0.02];
+    let pitch = prop_oneof![8 => (0.05f64..5.0, any::<bool>()).prop_map(|(h, n)| if n { -h } else { h }), 1 => pitch()];
+    let track = ((-0.05f64..=0.05, -0.05f64..=0.05), 0.02f64..3.0, any::<bool>(), pitch, -2.5f64..=2.5, (0.05f64..1.5, 1.5f64..3.0), (jit(), jit(), jit())).prop_map(|(q, radius_extra, side, pitch, tv, span, j)| CrossTrack {
+        q: [Fx(q.0), Fx(q.1)],
+        radius_extra: Fx(radius_extra),
+        side,
+        pitch: Fx(pitch),
+        tv: Fx(tv),
+        span: [Fx(span.0), Fx(span.1)],
+        jitter: [Fx(j.0), Fx(j.1), Fx(j.2)],
+    });
+    let rv = prop_oneof![2 => Just(0.0f64), 3 => 0.0f64..0.05, 4 => 0.05f64..0.12, 1 => 0.12f64..0.3];
+    ((rv, -PI..=PI, -1.1f64..=1.1), proptest::collection::vec(track, 2..=6)).prop_map(|(v, tracks)| CrossingCase { v: [Fx(v.0), Fx(v.1), Fx(v.2)], tracks })
+}
+
+fn judge_primary(tracks: Vec<Track>, ev: &mut Ev, key: u64) -> Outcome {
+    let n = tracks.len();
+    let res = no_panic("find_vertices", || find_vertices(tracks))?;
+    let Some(v) = res.primary else {
+        ev.label("vertex:None");
+        return Ok(());
+    };
+    let p = (v.position.x.get::<meter>(), v.position.y.get::<meter>(), v.position.z.get::<meter>());
+    if !(p.0.is_finite() && p.1.is_finite() && p.2.is_finite()) {
+        // finiteness of the position is C14's business
+        ev.label("vertex:not-finite");
+        return Ok(());
+    }
+    // the library builds a SpacePoint from the position: use the same point
+    let q = xyz(&sp_xyz(p.0, p.1, p.2));
+    let off = p.0.hypot(p.1);
+    ev.label(if off < 0.01 { "vertex:<1cm-off-axis" } else if off < 0.053 { "vertex:1-5.3cm-off-axis" } else if off < 0.11 { "vertex:5.3-11cm-off-axis" } else { "vertex:>11cm-off-axis" });
+    let mut interior = 0;
+    for (t, tt) in &v.tracks {
+        if judge(t, q, *tt, "vertex track parameter")? {
+            interior += 1;
+        }
+    }
+    if interior > 0 {
+        ev.nontrivial(key);
+        ev.label("vertex-t:interior");
+    }
+    ev.sample(|| format!("{n} tracks -> primary of {} tracks at ({:.4},{:.4},{:.4}), {interior} interior parameters", v.tracks.len(), p.0, p.1, p.2));
+    Ok(())
+}
+
+fn crossing(c: &CrossingCase, ev: &mut Ev) -> Outcome {
+    ev.eval();
+    judge_primary(c.build(), ev, fingerprint(&format!("{c:?}")))
+}
+
+fn track_sets(c: &super::c14::TrackSet, ev: &mut Ev) -> Outcome {
+    ev.eval();
+    judge_primary(c.build(), ev, fingerprint(&format!("{c:?}")))
+}
+
 fn helix_only() -> impl Strategy<Value = PointsCase> {
     (proptest::collection::vec((1u8..=4, 0u16..800, 20u16..=60, any::<u64>()), 1..=4)).prop_map(|v| PointsCase {
         groups: v.into_iter().map(|(spacing_mm, noise_um, n, seed)| Group { family: Family::Helix { spacing_mm, noise_um }, n, seed }).collect(),
@@ -239,6 +343,8 @@ fn run(r: &Run) {
     r.prop("closest_t_direct", t.pick(40_000, 2_000_000), direct_case, direct);
     r.prop("closest_t_kepler_coordinates", t.pick(60_000, 3_000_000), kepler_case, kepler);
     r.prop("fitted_tracks_and_vertices", t.pick(400, 20_000), helix_only, fitted);
+    r.prop("vertex_parameters_crossing_tracks", t.pick(3_000, 150_000), crossing_case, crossing);
+    r.prop("vertex_parameters_track_sets", t.pick(1_500, 75_000), super::c14::track_set, track_sets);
 }
 
 fn replay(_r: &Run, check: &str, case: &Value) -> Option<Outcome> {
@@ -246,6 +352,8 @@ fn replay(_r: &Run, check: &str, case: &Value) -> Option<Outcome> {
         "closest_t_direct" => replay_case(case, direct),
         "fitted_tracks_and_vertices" => replay_case(case, fitted),
         "closest_t_kepler_coordinates" => replay_case(case, kepler),
+        "vertex_parameters_crossing_tracks" => replay_case(case, crossing),
+        "vertex_parameters_track_sets" => replay_case(case, track_sets),
         _ => return None,
     })
 }
